@@ -11,7 +11,7 @@ use rust_rule_engine::rete::{FactValue, TypedFacts};
 use rust_rule_engine::types::{ActionType, Operator, Value as RV};
 use serde_json::{json, Map, Value};
 
-const VALS: [&str; 10] = ["i1", "f1", "s1", "bt", "st", "arr", "null", "z", "nz", "nan"];
+const VALS: [&str; 12] = ["i1", "f1", "s1", "bt", "st", "arr", "null", "z", "nz", "nan", "tiny", "i0"];
 
 pub fn fv(tag: &str) -> Option<FactValue> {
     Some(match tag {
@@ -25,6 +25,8 @@ pub fn fv(tag: &str) -> Option<FactValue> {
         "z" => FactValue::Float(0.0),
         "nz" => FactValue::Float(-0.0),
         "nan" => FactValue::Float(f64::NAN),
+        "tiny" => FactValue::Float(1e-20),
+        "i0" => FactValue::Integer(0),
         _ => return None,
     })
 }
@@ -56,6 +58,12 @@ fn node(n: i64) -> ReteUlNode {
     match n {
         1 => a("x", "==", "1"),
         2 => a("x", "==", "true"),
+        4 => ReteUlNode::UlMultiField { field: "x".into(), operation: "contains".into(), value: Some("0".into()), operator: None, compare_value: None },
+        5 => ReteUlNode::UlOr(
+            Box::new(ReteUlNode::UlNot(Box::new(ReteUlNode::UlMultiField { field: "x".into(), operation: "contains".into(), value: Some("-0".into()), operator: None, compare_value: None }))),
+            Box::new(a("x", "==", "0")),
+        ),
+        6 => a("x", "==", "0"),
         _ => ReteUlNode::UlAnd(Box::new(a("x", "!=", "2")), Box::new(ReteUlNode::UlNot(Box::new(a("x", ">", "0"))))),
     }
 }
@@ -68,6 +76,12 @@ fn factset(i: i64) -> TypedFacts {
         3 => t.set("x", FactValue::Float(1.0)),
         4 => t.set("x", FactValue::Boolean(true)),
         5 => t.set("x", FactValue::String("true".into())),
+        7 => t.set("x", FactValue::Array(vec![FactValue::Float(0.0), FactValue::Float(2.5)])),
+        8 => t.set("x", FactValue::Array(vec![FactValue::Float(-0.0), FactValue::Float(2.5)])),
+        9 => t.set("x", FactValue::Float(0.0)),
+        10 => t.set("x", FactValue::Float(-0.0)),
+        11 => t.set("x", FactValue::Float(1e-20)),
+        12 => t.set("x", FactValue::Integer(0)),
         _ => {
             t.set("x", FactValue::Integer(1));
             t.set("y", FactValue::Null);
